@@ -20,7 +20,7 @@ fn main() {
     let mut src = String::new();
     std::io::stdin().read_to_string(&mut src).unwrap();
     std::panic::set_hook(Box::new(|_| {}));
-    let limit: u64 = std::env::var("C03_TIMEOUT_S").ok().and_then(|s| s.parse().ok()).unwrap_or(20);
+    let limit: u64 = std::env::var("C03_TIMEOUT_S").ok().and_then(|s| s.parse().ok()).unwrap_or(40);
     // watchdog: `epoch` = index of the running program; if it does not change for `limit` seconds, give up.
     let epoch = Arc::new(AtomicU64::new(0));
     {
